@@ -157,6 +157,12 @@ def make_scenario_files(sc, workdir):
     max_rows = sc.get("max_rows", 8)
     files, refs = {}, []
     files[BYSTANDER] = bytes(rng.randrange(256) for _ in range(rng.randrange(1, 200)))
+    # a neighbour whose name starts like the database's (an operator's copy, the other database of a `<db>` / `<db>.usage`
+    # pair): never a temporary file of the server, must stay untouched like any other neighbour
+    rng2 = random.Random(sc["subseed"] ^ 0xb157a)
+    if rng2.random() < 0.6:
+        files[DB + rng2.choice([".orig", ".usage", ".bak", ".old-1", ".tmp"])] = \
+            bytes(rng2.randrange(256) for _ in range(rng2.randrange(1, 200)))
     cls, schema = sc["cls"], sc["schema"]
     tmp = os.path.join(workdir, "build.sqlite")
     t = targets()[schema]
